@@ -593,7 +593,7 @@ Proof.
 Qed.
 
 (* ====================================================================== *)
-(* 3b. canonicity seen from the receiving side                             *)
+(* 7. (addendum to 3) canonicity seen from the receiving side              *)
 (* ====================================================================== *)
 (* every AVP of a buffer is wire_ok (declared length = header + data, V bit implies vendor <> 0,
    zero padding): WireP's per-AVP condition, along the whole list *)
@@ -666,3 +666,142 @@ Proof.
   intros d fuel a t Hw Hc Ht. eapply tree_roundtrip_canon; [exact Hw| |exact Ht].
   apply wire_canon_canon; [|exact Hc]. destruct Hw as (_ & _ & _ & _ & Hp & _). exact Hp.
 Qed.
+
+(* ====================================================================== *)
+(* OPTIONAL: the Python cache key "/".join(f"{c}_{v}" for c, v in path) is  *)
+(* injective on paths of non-negative integers                             *)
+(* ====================================================================== *)
+From Coq Require Ascii String DecimalString DecimalPos DecimalN.
+
+Module KeyInj.
+Import Ascii String DecimalString.
+Local Open Scope string_scope.
+
+(* f"{z}" for z >= 0 *)
+Definition dec (z : Z) : string := NilZero.string_of_uint (N.to_uint (Z.to_N z)).
+
+Fixpoint render (p : path) : string :=
+  match p with
+  | List.nil => ""
+  | List.cons (c, v) r =>
+      dec c ++ String "_" (dec v ++ match r with List.nil => "" | _ => String "/" (render r) end)
+  end.
+
+Definition is_digit (a : ascii) : bool :=
+  let n := nat_of_ascii a in (Nat.leb 48 n && Nat.leb n 57)%bool.
+
+Fixpoint all_digits (s : string) : bool :=
+  match s with EmptyString => true | String a r => (is_digit a && all_digits r)%bool end.
+
+Lemma all_digits_nilempty d : all_digits (NilEmpty.string_of_uint d) = true.
+Proof. induction d; cbn [NilEmpty.string_of_uint all_digits]; try rewrite IHd; reflexivity. Qed.
+
+Lemma all_digits_dec z : all_digits (dec z) = true.
+Proof.
+  unfold dec, NilZero.string_of_uint. destruct (N.to_uint (Z.to_N z)); try apply all_digits_nilempty.
+  reflexivity.
+Qed.
+
+Lemma dec_nonempty z : exists a s, dec z = String a s.
+Proof.
+  unfold dec, NilZero.string_of_uint.
+  destruct (N.to_uint (Z.to_N z)); cbn [NilEmpty.string_of_uint]; eexists _, _; reflexivity.
+Qed.
+
+Lemma to_uint_nonnil n : N.to_uint n <> Decimal.Nil.
+Proof.
+  destruct n as [|p]; [discriminate|]. apply DecimalPos.Unsigned.to_uint_nonnil.
+Qed.
+
+Lemma dec_inj z z' : 0 <= z -> 0 <= z' -> dec z = dec z' -> z = z'.
+Proof.
+  intros Hz Hz' H. unfold dec in H.
+  apply (f_equal NilZero.uint_of_string) in H.
+  rewrite !NilZero.usu in H by apply to_uint_nonnil.
+  injection H as H. apply DecimalN.Unsigned.to_uint_inj in H. lia.
+Qed.
+
+Lemma append_nil_r s : s ++ "" = s.
+Proof. induction s as [|a s IH]; [reflexivity|]. cbn [append]. rewrite IH. reflexivity. Qed.
+
+(* a run of digits followed by a non-digit splits uniquely *)
+Lemma split_digits a : forall b c1 c2 r1 r2,
+  all_digits a = true -> all_digits b = true -> is_digit c1 = false -> is_digit c2 = false ->
+  a ++ String c1 r1 = b ++ String c2 r2 -> a = b /\ c1 = c2 /\ r1 = r2.
+Proof.
+  induction a as [|x a IH]; intros b c1 c2 r1 r2 Ha Hb H1 H2 E.
+  - destruct b as [|y b].
+    + cbn [append] in E. injection E as -> ->. repeat split.
+    + cbn [append] in E. injection E as -> _. cbn [all_digits] in Hb.
+      apply andb_prop in Hb as [Hy _]. congruence.
+  - destruct b as [|y b].
+    + cbn [append] in E. injection E as -> _. cbn [all_digits] in Ha.
+      apply andb_prop in Ha as [Hx _]. congruence.
+    + cbn [append] in E. injection E as -> E. cbn [all_digits] in Ha, Hb.
+      apply andb_prop in Ha as [_ Ha]. apply andb_prop in Hb as [_ Hb].
+      destruct (IH b c1 c2 r1 r2 Ha Hb H1 H2 E) as (-> & -> & ->). repeat split.
+Qed.
+
+Lemma digits_no_sep a : forall b c r,
+  all_digits a = true -> is_digit c = false -> a = b ++ String c r -> False.
+Proof.
+  induction a as [|x a IH]; intros b c r Ha Hc E.
+  - destruct b; discriminate.
+  - destruct b as [|y b]; cbn [append] in E; injection E as -> E; cbn [all_digits] in Ha;
+      apply andb_prop in Ha as [Hx Ha].
+    + congruence.
+    + eapply IH; eassumption.
+Qed.
+
+Definition nonneg (p : path) : Prop := Forall (fun cv => 0 <= fst cv /\ 0 <= snd cv) p.
+
+Theorem render_inj : forall p q, nonneg p -> nonneg q -> render p = render q -> p = q.
+Proof.
+  induction p as [|[c v] r IH]; intros q Hp Hq E.
+  - destruct q as [|[c' v'] r']; [reflexivity|].
+    cbn [render] in E. destruct (dec_nonempty c') as (a & s & Hd). rewrite Hd in E. discriminate.
+  - destruct q as [|[c' v'] r'].
+    + cbn [render] in E. destruct (dec_nonempty c) as (a & s & Hd). rewrite Hd in E. discriminate.
+    + inversion Hp as [|? ? [Hc Hv] Hr]; subst. inversion Hq as [|? ? [Hc' Hv'] Hr']; subst.
+      cbn [fst snd] in *.
+      cbn [render] in E.
+      apply split_digits in E as (Ec & _ & E); try apply all_digits_dec; try reflexivity.
+      apply dec_inj in Ec; [|assumption|assumption]. subst c'.
+      destruct r as [|x r]; destruct r' as [|x' r'].
+      * rewrite !append_nil_r in E. apply dec_inj in E; [|assumption|assumption]. subst. reflexivity.
+      * rewrite append_nil_r in E. exfalso.
+        eapply (digits_no_sep (dec v)); [apply all_digits_dec| |exact E]. reflexivity.
+      * rewrite append_nil_r in E. exfalso. symmetry in E.
+        eapply (digits_no_sep (dec v')); [apply all_digits_dec| |exact E]. reflexivity.
+      * apply split_digits in E as (Ev & _ & E); try apply all_digits_dec; try reflexivity.
+        apply dec_inj in Ev; [|assumption|assumption]. subst v'.
+        f_equal. apply IH; assumption.
+Qed.
+
+(* sanity: the rendering is the Python one on an example *)
+Example render_example : render (List.cons (260, 0) (List.cons (266, 10415) List.nil)) = "260_0/266_10415".
+Proof. vm_compute. reflexivity. Qed.
+
+End KeyInj.
+
+Print Assumptions traverse_is_at_path.
+Print Assumptions find_avps_is_at_path.
+Print Assumptions find_cache_transparent.
+Print Assumptions find_cache_repeat.
+Print Assumptions find_seq_is_at_path.
+Print Assumptions to_tree_payload.
+Print Assumptions tree_roundtrip_enc.
+Print Assumptions tree_roundtrip_refuted.
+Print Assumptions tree_roundtrip_partial.
+Print Assumptions tree_roundtrip_leaf.
+Print Assumptions enc_dec_avps.
+Print Assumptions tree_roundtrip_wire.
+Print Assumptions grouped_val_roundtrip.
+Print Assumptions val_layout_any.
+Print Assumptions val_layout.
+Print Assumptions avp_new_flags.
+Print Assumptions avp_new_unknown.
+Print Assumptions avp_new_wf.
+Print Assumptions dispatch_type.
+Print Assumptions dispatch_registered.
+Print Assumptions KeyInj.render_inj.
